@@ -42,3 +42,6 @@ func (r *Rng) Range(lo, hi int) int { return lo + r.Intn(hi-lo+1) }
 
 // Fork derives an independent stream (for per-case reproducibility).
 func (r *Rng) Fork() *Rng { return &Rng{s: r.U64()} }
+
+// PickS picks one of the given strings.
+func (r *Rng) PickS(xs ...string) string { return xs[r.Intn(len(xs))] }
